@@ -1,24 +1,925 @@
+// C18 harness: svcb.ParamList FromText / ToWire / ToText on generated parameter lists,
+// the B / H record path through dnsdata.Codec.ConvertLn, and an independent decode of
+// the emitted RDATA by miekg/dns.
+//
+// Every input is emitted twice: kind "wire" (acceptance, wire data, decoders, record row)
+// and kind "rt" (ToText of the stored list and FromText of that text).
 package main
 
 import (
 	"bytes"
+	"encoding/base64"
+	"encoding/binary"
+	"encoding/json"
+	"errors"
 	"fmt"
+	"net"
+	"net/netip"
+	"strconv"
 	"strings"
+
+	"github.com/miekg/dns"
 
 	"github.com/facebookincubator/dns/dnsrocks/dnsdata"
 	"github.com/facebookincubator/dns/dnsrocks/dnsdata/svcb"
+
+	"verifharness/hlib"
 )
 
-func main() {
-	s := "ipv6hint=" + strings.Repeat("::|", 4095) + "::;port=80"
-	var l svcb.ParamList
-	err := l.FromText([]byte(s))
-	var w bytes.Buffer
-	l.ToWire(&w)
-	fmt.Println(len(s), err, w.Len(), w.Bytes()[:8])
-	c := new(dnsdata.Codec)
-	mr, err := c.ConvertLn([]byte("Hexample.com,svc.example.net,300,,1,alpn=h2;port=443"))
-	fmt.Println(mr, err)
-	mr, err = c.ConvertLn([]byte("Hexample.com,.,300,,1," + s))
-	fmt.Println(len(mr), err, len(mr[0].Value))
+// sval is one declared / decoded parameter (Spec/SvcbWire.v sval).
+type sval struct {
+	K   int     `json:"k"`
+	Ks  []int   `json:"ks,omitempty"`  // mandatory
+	Ids [][]int `json:"ids,omitempty"` // alpn
+	P   int     `json:"p,omitempty"`   // port
+	A   [][]int `json:"a,omitempty"`   // hints
+	B   []int   `json:"b,omitempty"`   // ech / opaque
 }
+
+type recIn struct {
+	Type   int    `json:"type"` // 64 SVCB ('B' line), 65 HTTPS ('H' line)
+	TTL    int    `json:"ttl"`
+	Prio   int    `json:"prio"`
+	Target string `json:"target"`
+}
+
+type recObs struct {
+	recIn
+	Err bool  `json:"err"`
+	Row []int `json:"row"`
+}
+
+type pair struct {
+	K []int `json:"k"`
+	V []int `json:"v"` // nil = failure (parse / decode oracles)
+	N bool  `json:"n"` // true when the library call failed
+}
+
+type c18case struct {
+	Kind   string  `json:"kind"`
+	Class  string  `json:"class"`
+	Text   []int   `json:"text"`
+	Decl   *[]sval `json:"decl"` // generator's intent, nil when there is none
+	Rec    *recObs `json:"rec"`
+	Parse  []pair  `json:"parse"`
+	Print  []pair  `json:"print"`
+	B64d   []pair  `json:"b64d"`
+	B64e   []pair  `json:"b64e"`
+	Ft     int     `json:"ft"`
+	FtMsg  string  `json:"ft_msg,omitempty"`
+	Wire   []int   `json:"wire"`
+	Tt     int     `json:"tt"`
+	Txt    []int   `json:"txt"`
+	Rp     int     `json:"rp"`
+	Wire2  []int   `json:"wire2"`
+	Mk     int     `json:"mk"`
+	MkMsg  string  `json:"mk_msg,omitempty"`
+	Mkv    []sval  `json:"mkv"`
+	Mapped bool    `json:"mapped6"` // informational: the wire data holds a v4-mapped ipv6hint
+}
+
+// ---------------------------------------------------------------- observation
+
+func errCode(err error) int {
+	if err == nil {
+		return 0
+	}
+	var ne *strconv.NumError
+	if errors.As(err, &ne) {
+		if ne.Err == strconv.ErrRange {
+			return 9
+		}
+		return 8
+	}
+	var ce base64.CorruptInputError
+	if errors.As(err, &ce) {
+		return 12
+	}
+	s := err.Error()
+	switch {
+	case strings.HasPrefix(s, "error parsing SVCB/HTTPS parameter: "):
+		return 1
+	case strings.HasPrefix(s, "unknown SVCB/HTTPS parameter: "):
+		return 2
+	case strings.HasPrefix(s, "value for ") && strings.HasSuffix(s, " cannot be empty"):
+		return 3
+	case strings.HasSuffix(s, " is not a valid mandatory value"):
+		return 4
+	case s == "mandatory itself cannot be mandatory":
+		return 5
+	case strings.HasSuffix(s, " in mandatory values has appeared more than once"):
+		return 6
+	case s == "the value for no-default-alpn should be empty":
+		return 7
+	case strings.HasSuffix(s, " is not a valid IPv4 address"):
+		return 10
+	case strings.HasSuffix(s, " is a valid address but cannot be converted to 4-byte form"):
+		return 11
+	case strings.HasSuffix(s, " is not a valid IPv6 address"):
+		return 13
+	case strings.HasSuffix(s, " is not a parsable IPv6 address"):
+		return 14
+	case strings.HasPrefix(s, "error parsing ") && strings.HasSuffix(s, ": keys have to be unique"):
+		return 15
+	case strings.HasSuffix(s, " is mandatory but missing in parameter list"):
+		return 16
+	case strings.HasPrefix(s, "alpn id ") && strings.HasSuffix(s, " must be 1 to 255 bytes long"):
+		return 17
+	case strings.HasPrefix(s, "value for ") && strings.HasSuffix(s, " is longer than 65535 bytes"):
+		return 18
+	}
+	return 99
+}
+
+func ints2(bs [][]byte) [][]int {
+	r := make([][]int, len(bs))
+	for i, b := range bs {
+		r[i] = hlib.Ints(b)
+	}
+	return r
+}
+
+// tlv walks the SvcParams framing (key, length, value); ok = false when it does not fit.
+func tlv(w []byte) (keys []int, vals [][]byte, ok bool) {
+	for len(w) > 0 {
+		if len(w) < 4 {
+			return keys, vals, false
+		}
+		k := int(binary.BigEndian.Uint16(w))
+		n := int(binary.BigEndian.Uint16(w[2:]))
+		if 4+n > len(w) {
+			return keys, vals, false
+		}
+		keys = append(keys, k)
+		vals = append(vals, w[4:4+n])
+		w = w[4+n:]
+	}
+	return keys, vals, true
+}
+
+type oracleSet struct {
+	parse, print, b64d, b64e []pair
+	seen                     map[string]bool
+}
+
+func (o *oracleSet) once(tag string, k []byte) bool {
+	if o.seen == nil {
+		o.seen = map[string]bool{}
+	}
+	key := tag + string(k)
+	if o.seen[key] {
+		return false
+	}
+	o.seen[key] = true
+	return true
+}
+
+// fromParamText records what net.ParseIP / base64 Decode answer on the value tokens of a
+// parameter text (the tokenisation only decides WHICH questions are put to the library).
+func (o *oracleSet) fromParamText(t []byte) {
+	for _, seg := range bytes.Split(t, []byte(";")) {
+		kv := bytes.SplitN(seg, []byte("="), 2)
+		if len(kv) != 2 {
+			continue
+		}
+		v := bytes.Trim(kv[1], "\"")
+		switch string(kv[0]) {
+		case "ipv4hint", "ipv6hint":
+			for _, tok := range bytes.Split(v, []byte("|")) {
+				if len(tok) > 96 || !o.once("p", tok) {
+					continue
+				}
+				ip := net.ParseIP(string(tok))
+				if ip == nil {
+					o.parse = append(o.parse, pair{K: hlib.Ints(tok), N: true})
+				} else {
+					o.parse = append(o.parse, pair{K: hlib.Ints(tok), V: hlib.Ints(append([]byte{}, ip...))})
+				}
+			}
+		case "echconfig":
+			if !o.once("d", v) {
+				continue
+			}
+			out := make([]byte, base64.StdEncoding.DecodedLen(len(v)))
+			n, err := base64.StdEncoding.Decode(out, append([]byte{}, v...))
+			if err != nil {
+				o.b64d = append(o.b64d, pair{K: hlib.Ints(v), N: true})
+			} else {
+				o.b64d = append(o.b64d, pair{K: hlib.Ints(v), V: hlib.Ints(out[:n])})
+			}
+		}
+	}
+}
+
+// fromWire records what net.IP.String / base64 Encode answer on the stored values.
+func (o *oracleSet) fromWire(w []byte) {
+	keys, vals, _ := tlv(w)
+	for i, k := range keys {
+		v := vals[i]
+		step := 0
+		switch k {
+		case 4:
+			step = 4
+		case 6:
+			step = 16
+		case 5:
+			if o.once("e", v) {
+				out := make([]byte, base64.StdEncoding.EncodedLen(len(v)))
+				base64.StdEncoding.Encode(out, v)
+				o.b64e = append(o.b64e, pair{K: hlib.Ints(v), V: hlib.Ints(out)})
+			}
+		}
+		if step > 0 {
+			for off := 0; off+step <= len(v); off += step {
+				a := append([]byte{}, v[off:off+step]...)
+				if o.once("s", a) {
+					o.print = append(o.print, pair{K: hlib.Ints(a), V: hlib.Ints([]byte(net.IP(a).String()))})
+				}
+			}
+		}
+	}
+}
+
+func hasMapped6(w []byte) bool {
+	keys, vals, _ := tlv(w)
+	for i, k := range keys {
+		if k != 6 {
+			continue
+		}
+		v := vals[i]
+		for off := 0; off+16 <= len(v); off += 16 {
+			if bytes.Equal(v[off:off+12], []byte{0, 0, 0, 0, 0, 0, 0, 0, 0, 0, 0xff, 0xff}) {
+				return true
+			}
+		}
+	}
+	return false
+}
+
+// miekgView unpacks an SVCB RR whose RDATA is priority 1, target ".", and the given params.
+func miekgView(wire []byte) (int, string, []sval) {
+	rd := append([]byte{0, 1, 0}, wire...)
+	if len(rd) > 65535 {
+		return 2, "rdata too long", nil
+	}
+	msg := []byte{0, 0, 64, 0, 1, 0, 0, 0, 60, byte(len(rd) >> 8), byte(len(rd))}
+	msg = append(msg, rd...)
+	rr, _, err := dns.UnpackRR(msg, 0)
+	if err != nil {
+		return 1, err.Error(), nil
+	}
+	s, ok := rr.(*dns.SVCB)
+	if !ok {
+		return 1, fmt.Sprintf("unexpected RR type %T", rr), nil
+	}
+	res := []sval{}
+	for _, kv := range s.Value {
+		switch x := kv.(type) {
+		case *dns.SVCBMandatory:
+			v := sval{K: 0, Ks: []int{}}
+			for _, c := range x.Code {
+				v.Ks = append(v.Ks, int(c))
+			}
+			res = append(res, v)
+		case *dns.SVCBAlpn:
+			v := sval{K: 1, Ids: [][]int{}}
+			for _, a := range x.Alpn {
+				v.Ids = append(v.Ids, hlib.Ints([]byte(a)))
+			}
+			res = append(res, v)
+		case *dns.SVCBNoDefaultAlpn:
+			res = append(res, sval{K: 2})
+		case *dns.SVCBPort:
+			res = append(res, sval{K: 3, P: int(x.Port)})
+		case *dns.SVCBIPv4Hint:
+			v := sval{K: 4, A: [][]int{}}
+			for _, a := range x.Hint {
+				v.A = append(v.A, hlib.Ints(a))
+			}
+			res = append(res, v)
+		case *dns.SVCBECHConfig:
+			res = append(res, sval{K: 5, B: hlib.Ints(x.ECH)})
+		case *dns.SVCBIPv6Hint:
+			v := sval{K: 6, A: [][]int{}}
+			for _, a := range x.Hint {
+				v.A = append(v.A, hlib.Ints(a))
+			}
+			res = append(res, v)
+		case *dns.SVCBLocal:
+			res = append(res, sval{K: int(x.KeyCode), B: hlib.Ints(x.Data)})
+		default:
+			return 1, fmt.Sprintf("unexpected key type %T", kv), nil
+		}
+	}
+	return 0, "", res
+}
+
+func toTextSafe(l *svcb.ParamList) (out []byte, panicked bool) {
+	defer func() {
+		if r := recover(); r != nil {
+			out, panicked = nil, true
+		}
+	}()
+	var b bytes.Buffer
+	l.ToText(&b)
+	return b.Bytes(), false
+}
+
+type input struct {
+	text  []byte
+	decl  *[]sval
+	rec   *recIn
+	class string
+}
+
+func runOne(in input, e *hlib.Emitter) {
+	for _, c := range observe(in) {
+		e.Emit(c)
+	}
+}
+
+// observe runs the implementation on one input and returns the two cases (wire, rt).
+func observe(in input) []c18case {
+	c := c18case{Class: in.class, Text: hlib.Ints(in.text), Decl: in.decl, Tt: 2, Mk: 2,
+		Wire: []int{}, Txt: []int{}, Wire2: []int{}, Mkv: []sval{}}
+	var o oracleSet
+	o.fromParamText(in.text)
+
+	var l svcb.ParamList
+	err := l.FromText(append([]byte{}, in.text...))
+	c.Ft = errCode(err)
+	var wire []byte
+	if err != nil {
+		c.FtMsg = err.Error()
+		if len(c.FtMsg) > 120 {
+			c.FtMsg = c.FtMsg[:120]
+		}
+	} else {
+		var wb bytes.Buffer
+		if werr := l.ToWire(&wb); werr != nil {
+			c.Ft = 98
+			c.FtMsg = "ToWire: " + werr.Error()
+		}
+		wire = append([]byte{}, wb.Bytes()...)
+		c.Wire = hlib.Ints(wire)
+		c.Mapped = hasMapped6(wire)
+		o.fromWire(wire)
+		c.Mk, c.MkMsg, c.Mkv = miekgView(wire)
+		if c.Mkv == nil {
+			c.Mkv = []sval{}
+		}
+		txt, panicked := toTextSafe(&l)
+		if panicked {
+			c.Tt = 1
+		} else {
+			c.Tt = 0
+			txt = append([]byte{}, txt...)
+			c.Txt = hlib.Ints(txt)
+			o.fromParamText(txt)
+			var l2 svcb.ParamList
+			err2 := l2.FromText(append([]byte{}, txt...))
+			c.Rp = errCode(err2)
+			if err2 == nil {
+				var wb2 bytes.Buffer
+				l2.ToWire(&wb2)
+				c.Wire2 = hlib.Ints(wb2.Bytes())
+				o.fromWire(wb2.Bytes())
+			}
+		}
+	}
+	if in.rec != nil && !bytes.ContainsAny(in.text, ",\n") {
+		ro := recObs{recIn: *in.rec, Row: []int{}}
+		prefix := "H"
+		if in.rec.Type == 64 {
+			prefix = "B"
+		}
+		line := []byte(fmt.Sprintf("%sexample.com,%s,%d,,%d,", prefix, in.rec.Target, in.rec.TTL, in.rec.Prio))
+		line = append(line, in.text...)
+		codec := new(dnsdata.Codec)
+		mr, cerr := codec.ConvertLn(line)
+		if cerr != nil || len(mr) != 1 {
+			ro.Err = true
+		} else {
+			ro.Row = hlib.Ints(mr[0].Value)
+		}
+		c.Rec = &ro
+	}
+	nz := func(p []pair) []pair {
+		if p == nil {
+			return []pair{}
+		}
+		return p
+	}
+	c.Parse, c.Print, c.B64d, c.B64e = nz(o.parse), nz(o.print), nz(o.b64d), nz(o.b64e)
+	c.Kind = "wire"
+	c2 := c
+	c2.Kind = "rt"
+	c2.Rec = nil
+	return []c18case{c, c2}
+}
+
+// ---------------------------------------------------------------- generation
+
+var keyNames = []string{"mandatory", "alpn", "no-default-alpn", "port", "ipv4hint", "echconfig", "ipv6hint"}
+
+func quoteVariant(r *hlib.Rng, v []byte) []byte {
+	switch r.Pick([]int{5, 5, 1, 1}) {
+	case 0:
+		return v
+	case 1:
+		return append(append([]byte{'"'}, v...), '"')
+	case 2:
+		return append(append([]byte{'"', '"'}, v...), '"')
+	default:
+		return append([]byte{'"'}, v...)
+	}
+}
+
+func genAddr6(r *hlib.Rng) []byte {
+	a := make([]byte, 16)
+	switch r.Pick([]int{4, 3, 4, 1, 1, 1}) {
+	case 0:
+		copy(a, r.Bytes(16, nil))
+	case 1: // runs of zero groups
+		copy(a, r.Bytes(16, nil))
+		for g := 0; g < 8; g++ {
+			if r.Chance(1, 2) {
+				a[2*g], a[2*g+1] = 0, 0
+			}
+		}
+	case 2: // v4-mapped (the shape of finding F8)
+		a[10], a[11] = 0xff, 0xff
+		copy(a[12:], r.Bytes(4, nil))
+	case 3: // v4-compatible
+		copy(a[12:], r.Bytes(4, nil))
+	case 4:
+		a[15] = byte(r.Intn(2))
+	default:
+		a[0], a[1] = 0x20, 0x01
+		a[2], a[3] = 0x0d, 0xb8
+		a[15] = byte(r.Intn(256))
+	}
+	return a
+}
+
+func text6(r *hlib.Rng, a []byte) []byte {
+	var arr [16]byte
+	copy(arr[:], a)
+	switch r.Pick([]int{5, 2, 1}) {
+	case 0:
+		return []byte(netip.AddrFrom16(arr).String())
+	case 1:
+		parts := make([]string, 8)
+		for g := 0; g < 8; g++ {
+			parts[g] = strconv.FormatUint(uint64(a[2*g])<<8|uint64(a[2*g+1]), 16)
+		}
+		return []byte(strings.Join(parts, ":"))
+	default:
+		parts := make([]string, 8)
+		for g := 0; g < 8; g++ {
+			parts[g] = strings.ToUpper(fmt.Sprintf("%04x", uint64(a[2*g])<<8|uint64(a[2*g+1])))
+		}
+		return []byte(strings.Join(parts, ":"))
+	}
+}
+
+func text4(r *hlib.Rng, a []byte) []byte {
+	s := fmt.Sprintf("%d.%d.%d.%d", a[0], a[1], a[2], a[3])
+	if r.Chance(1, 6) {
+		return []byte("::ffff:" + s)
+	}
+	return []byte(s)
+}
+
+var alpnPool = []string{"h2", "h3", "h3-29", "http/1.1", "a\"b", "x=y", "\\,", "dot", "\xc3\xa9", " ", "\x00", "a b", "H2", "'q'", "\"in\"ner"}
+
+func genAlpnID(r *hlib.Rng) []byte {
+	switch r.Pick([]int{8, 2, 1}) {
+	case 0:
+		return []byte(alpnPool[r.Intn(len(alpnPool))])
+	case 1:
+		b := r.Bytes(1+r.Intn(6), nil)
+		for i := range b {
+			if b[i] == ';' || b[i] == '|' {
+				b[i] = 'z'
+			}
+		}
+		return b
+	default:
+		return bytes.Repeat([]byte{byte('a' + r.Intn(26))}, 255)
+	}
+}
+
+// genValue returns the value text and the declared value of one parameter; present is the
+// set of keys of the list (needed by mandatory).
+func genValue(r *hlib.Rng, k int, present []int) ([]byte, sval) {
+	bar := []byte("|")
+	switch k {
+	case 0:
+		var others []int
+		for _, p := range present {
+			if p != 0 {
+				others = append(others, p)
+			}
+		}
+		r.Shuffle(len(others), func(i, j int) { others[i], others[j] = others[j], others[i] })
+		n := 1 + r.Intn(len(others))
+		ks := others[:n]
+		var names [][]byte
+		for _, x := range ks {
+			names = append(names, []byte(keyNames[x]))
+		}
+		return bytes.Join(names, bar), sval{K: 0, Ks: append([]int{}, ks...)}
+	case 1:
+		n := 1 + r.Intn(3)
+		var ids [][]byte
+		for i := 0; i < n; i++ {
+			ids = append(ids, genAlpnID(r))
+		}
+		// the joined value must survive the quote trimming as it stands
+		ids[0] = bytes.TrimLeft(ids[0], "\"")
+		ids[n-1] = bytes.TrimRight(ids[n-1], "\"")
+		if len(ids[0]) == 0 {
+			ids[0] = []byte("h2")
+		}
+		if len(ids[n-1]) == 0 {
+			ids[n-1] = []byte("h3")
+		}
+		return bytes.Join(ids, bar), sval{K: 1, Ids: ints2(ids)}
+	case 2:
+		return []byte{}, sval{K: 2}
+	case 3:
+		ports := []int{0, 1, 53, 80, 443, 8080, 65535, 255, 256, 65534, 10000}
+		p := ports[r.Intn(len(ports))]
+		if r.Chance(1, 4) {
+			p = r.Intn(65536)
+		}
+		s := strconv.Itoa(p)
+		if r.Chance(1, 8) {
+			s = "00" + s
+		}
+		return []byte(s), sval{K: 3, P: p}
+	case 4:
+		n := 1 + r.Intn(3)
+		var toks, as [][]byte
+		for i := 0; i < n; i++ {
+			a := r.Bytes(4, nil)
+			if r.Chance(1, 5) {
+				a = [][]byte{{0, 0, 0, 0}, {255, 255, 255, 255}, {127, 0, 0, 1}, {192, 0, 2, 1}}[r.Intn(4)]
+			}
+			as = append(as, a)
+			toks = append(toks, text4(r, a))
+		}
+		return bytes.Join(toks, bar), sval{K: 4, A: ints2(as)}
+	case 5:
+		raw := r.Bytes(r.Intn(40), nil)
+		if r.Chance(1, 10) {
+			raw = r.Bytes(1, nil)
+		}
+		enc := []byte(base64.StdEncoding.EncodeToString(raw))
+		if len(enc) == 0 {
+			// an empty value needs the quotes to pass the emptiness test
+			return []byte("\"\""), sval{K: 5, B: []int{}}
+		}
+		if r.Chance(1, 10) && len(enc) > 4 {
+			// base64 Decode skips line breaks
+			enc = append(append(append([]byte{}, enc[:4]...), '\n'), enc[4:]...)
+		}
+		return enc, sval{K: 5, B: hlib.Ints(raw)}
+	default:
+		n := 1 + r.Intn(3)
+		var toks, as [][]byte
+		for i := 0; i < n; i++ {
+			a := genAddr6(r)
+			as = append(as, a)
+			toks = append(toks, text6(r, a))
+		}
+		return bytes.Join(toks, bar), sval{K: 6, A: ints2(as)}
+	}
+}
+
+func genRec(r *hlib.Rng) *recIn {
+	if !r.Chance(1, 3) {
+		return nil
+	}
+	targets := []string{"svc.example.net", ".", "a.b", "x"}
+	return &recIn{Type: 64 + r.Intn(2), TTL: []int{0, 60, 300, 86400}[r.Intn(4)],
+		Prio: []int{0, 1, 2, 16, 65535}[r.Intn(5)], Target: targets[r.Intn(len(targets))]}
+}
+
+func renderSeg(r *hlib.Rng, k int, v []byte) []byte {
+	if k == 2 && len(v) == 0 && !r.Chance(1, 3) {
+		return []byte(keyNames[k] + "=")
+	}
+	if k == 5 && len(v) == 2 && v[0] == '"' {
+		return append([]byte(keyNames[k]+"="), v...)
+	}
+	return append([]byte(keyNames[k]+"="), quoteVariant(r, v)...)
+}
+
+// genValid: a list meant to be accepted.
+func genValid(r *hlib.Rng, keys []int) input {
+	var segs [][]byte
+	decl := []sval{}
+	for _, k := range keys {
+		if k == 0 && len(keys) == 1 {
+			continue
+		}
+		v, d := genValue(r, k, keys)
+		segs = append(segs, renderSeg(r, k, v))
+		decl = append(decl, d)
+	}
+	text := bytes.Join(segs, []byte(";"))
+	class := "valid"
+	switch r.Pick([]int{10, 2, 1}) {
+	case 1:
+		text = append(text, ';')
+		class = "valid-trailing"
+	case 2:
+		// the list ends at the first empty segment: what follows is not part of it
+		text = append(text, []byte(";;port=zz;foo")...)
+		class = "valid-emptyseg"
+	}
+	return input{text: text, decl: &decl, rec: genRec(r), class: class}
+}
+
+func randKeys(r *hlib.Rng) []int {
+	keys := []int{0, 1, 2, 3, 4, 5, 6}
+	r.Shuffle(7, func(i, j int) { keys[i], keys[j] = keys[j], keys[i] })
+	n := 1 + r.Intn(7)
+	if r.Chance(1, 4) {
+		n = 7
+	}
+	return keys[:n]
+}
+
+// genMandBad: a list whose mandatory parameter names a missing key, itself, or a key twice.
+func genMandBad(r *hlib.Rng) input {
+	keys := randKeys(r)
+	has0 := false
+	for _, k := range keys {
+		if k == 0 {
+			has0 = true
+		}
+	}
+	if !has0 {
+		keys = append(keys, 0)
+		r.Shuffle(len(keys), func(i, j int) { keys[i], keys[j] = keys[j], keys[i] })
+	}
+	in := map[int]bool{}
+	for _, k := range keys {
+		in[k] = true
+	}
+	var segs [][]byte
+	decl := []sval{}
+	how := r.Intn(3)
+	for _, k := range keys {
+		if k != 0 {
+			v, d := genValue(r, k, keys)
+			segs = append(segs, renderSeg(r, k, v))
+			decl = append(decl, d)
+			continue
+		}
+		var ks []int
+		for _, p := range keys {
+			if p != 0 && r.Chance(1, 2) {
+				ks = append(ks, p)
+			}
+		}
+		switch how {
+		case 0: // a key that is not in the list
+			var missing []int
+			for c := 1; c <= 6; c++ {
+				if !in[c] {
+					missing = append(missing, c)
+				}
+			}
+			if len(missing) == 0 {
+				ks = append(ks, 0)
+			} else {
+				ks = append(ks, missing[r.Intn(len(missing))])
+			}
+		case 1:
+			ks = append(ks, 0)
+		default:
+			if len(ks) == 0 {
+				ks = append(ks, 1+r.Intn(6))
+			}
+			ks = append(ks, ks[r.Intn(len(ks))])
+		}
+		r.Shuffle(len(ks), func(i, j int) { ks[i], ks[j] = ks[j], ks[i] })
+		var names [][]byte
+		for _, x := range ks {
+			names = append(names, []byte(keyNames[x]))
+		}
+		segs = append(segs, renderSeg(r, 0, bytes.Join(names, []byte("|"))))
+		decl = append(decl, sval{K: 0, Ks: ks})
+	}
+	return input{text: bytes.Join(segs, []byte(";")), decl: &decl, rec: genRec(r),
+		class: []string{"mand-missing", "mand-self", "mand-repeat"}[how]}
+}
+
+// genDupKey: a parameter key occurs twice.
+func genDupKey(r *hlib.Rng) input {
+	keys := randKeys(r)
+	keys = append(keys, keys[r.Intn(len(keys))])
+	r.Shuffle(len(keys), func(i, j int) { keys[i], keys[j] = keys[j], keys[i] })
+	var segs [][]byte
+	decl := []sval{}
+	for _, k := range keys {
+		if k == 0 {
+			continue
+		}
+		v, d := genValue(r, k, keys)
+		segs = append(segs, renderSeg(r, k, v))
+		decl = append(decl, d)
+	}
+	return input{text: bytes.Join(segs, []byte(";")), decl: &decl, rec: genRec(r), class: "dup-key"}
+}
+
+var badSegs = []string{
+	"mandatory=", "alpn=", "ipv4hint=", "echconfig=", "ipv6hint=", "port=", "no-default-alpn=h2",
+	"ipv4hint", "foo=bar", "port=1b", "ipv4hint=ab.cd.ef.fg", "IPv4Hint=1.2.3.4", "ipv4hint=face:b00c::",
+	"echconfig=***bad***", "mandatory=foo|bar", "mandatory=ALPN|IPv4Hint", "ipv6hint=f:a:c:e:b:o:o:k",
+	"ipv6hint=1.2.3.4", "port=65536", "port=99999999999999999999", "port=+80", "port=-1", "port=\"\"",
+	"port=6553x6", "port=65536x", "port= 80", "ipv4hint=1.2.3.4|", "ipv4hint=|1.2.3.4", "ipv4hint=1.2.3",
+	"ipv4hint=256.1.1.1", "ipv4hint=01.2.3.4", "ipv4hint=1.2.3.4|::1", "ipv6hint=::1|", "ipv6hint=1::2%eth0",
+	"ipv6hint=::1|1.2.3.4", "ipv6hint=:", "ipv6hint=12345::", "echconfig=YQ", "echconfig=YQ=", "echconfig=Y*==",
+	"no-default-alpn", "=x", "alpn", "alpn=|", "alpn=h2|", "alpn=|h2", "alpn=h2||h3", "alpn=\"\"",
+	"mandatory=\"\"", "mandatory=|", "mandatory=alpn|", "mandatory=port|mandatory|foo", "mandatory=port|foo|mandatory",
+	"mandatory=alpn|alpn|foo", "mandatory =alpn", "port=80=", "echconfig=\"", "no-default-alpn=\"", "no-default-alpn=\"\"\"x",
+	"key7=x", "dohpath=/dns", "ech=YQ==", "alpn=" + strings.Repeat("a", 256), "alpn=h2|" + strings.Repeat("b", 258),
+}
+
+// genMalformed: mostly-valid list with one broken or unusual segment; no declared intent.
+func genMalformed(r *hlib.Rng) input {
+	keys := randKeys(r)
+	var segs [][]byte
+	for _, k := range keys {
+		if k == 0 {
+			continue
+		}
+		v, _ := genValue(r, k, keys)
+		segs = append(segs, renderSeg(r, k, v))
+	}
+	bad := []byte(badSegs[r.Intn(len(badSegs))])
+	if r.Chance(1, 5) {
+		bad = r.Bytes(1+r.Intn(12), []byte("alpnort=;|\"h2 .:0123mandatoryipv46hint-"))
+	}
+	pos := r.Intn(len(segs) + 1)
+	segs = append(segs[:pos], append([][]byte{bad}, segs[pos:]...)...)
+	return input{text: bytes.Join(segs, []byte(";")), rec: genRec(r), class: "malformed"}
+}
+
+func fixedInputs() []input {
+	texts := []string{
+		"ipv6hint=::ffff:1.2.3.4", // F8
+		"ipv6hint=0:0:0:0:0:ffff:102:304",
+		"ipv6hint=2001:db8::1|::ffff:198.51.100.100;port=443",
+		"ipv4hint=192.0.2.1|1.2.3.4", "ipv6hint=\"2001:db8::1|2001:db8::53:1\"", "mandatory=ipv4hint|alpn",
+		"alpn=h2|h3-19", "port=53", "echconfig=\"dHJhZmZpYw==\"",
+		"ipv4hint=192.0.2.1;mandatory=ipv4hint|alpn;alpn=h3-29|h2", "port=8080;no-default-alpn=",
+		"no-default-alpn=h2;port=53;ipv4hint=1.2.3.4", "no-default-alpn=;echconfig=\"dHJhZmZpYw==\";port=x",
+		"mandatory=echconfig;ipv4hint=facebook", "ipv4hint=1.2.3.4;ipv4hint=2.3.4.5", "mandatory=ipv4hint|alpn;alpn=h2",
+		"port=8080,no-default-alpn=", "", ";", ";alpn=h2", "alpn=h2;;port=zzz", "alpn=h2;", "alpn==", "alpn=a\"b",
+		"alpn=\"a\"|\"b\"", "mandatory=\"alpn\";alpn=\"\"\"h2\"\"\"", "ipv4hint=::ffff:1.2.3.4", "ipv6hint=::1.2.3.4",
+		"port=080", "port=0", "port=65535", "port=65536", "echconfig=\"\"", "echconfig=YQ==", "echconfig=YR==",
+		"echconfig=Y\nQ==", "no-default-alpn=\"\"", "mandatory=mandatory", "mandatory=alpn|alpn;alpn=h2",
+		"mandatory=port;alpn=h2", "alpn=" + strings.Repeat("a", 255), "alpn=" + strings.Repeat("a", 256),
+		"alpn=" + strings.Repeat("\x02", 258), "alpn=h2|", "alpn=\"\"", "alpn=|",
+		"mandatory=alpn|no-default-alpn|port|ipv4hint|echconfig|ipv6hint;alpn=h2;no-default-alpn=;port=1;ipv4hint=1.1.1.1;echconfig=YQ==;ipv6hint=::1",
+	}
+	var res []input
+	for i, t := range texts {
+		in := input{text: []byte(t), class: "fixed"}
+		if i%2 == 0 {
+			in.rec = &recIn{Type: 65, TTL: 300, Prio: 1, Target: "svc.example.net"}
+		}
+		res = append(res, in)
+	}
+	return res
+}
+
+// hugeInputs: values at the 16-bit limit of the length field.
+func hugeInputs() []input {
+	id254 := strings.Repeat("k", 254)
+	id255 := strings.Repeat("m", 255)
+	return []input{
+		{text: []byte("alpn=" + strings.Repeat(id254+"|", 256) + id254), class: "huge-65535"},      // 257*255 = 65535
+		{text: []byte("port=1;alpn=" + strings.Repeat(id255+"|", 255) + id255), class: "huge-65536"}, // 256*256 = 65536
+		{text: []byte("ipv6hint=" + strings.Repeat("::|", 4095) + "::;port=80"), class: "huge-65536"},
+	}
+}
+
+func permutations(keys []int, f func([]int)) {
+	var rec func(k int)
+	a := append([]int{}, keys...)
+	rec = func(k int) {
+		if k == len(a) {
+			f(append([]int{}, a...))
+			return
+		}
+		for i := k; i < len(a); i++ {
+			a[k], a[i] = a[i], a[k]
+			rec(k + 1)
+			a[k], a[i] = a[i], a[k]
+		}
+	}
+	rec(0)
+}
+
+func run(a *hlib.Args, e *hlib.Emitter) error {
+	if a.Replay != "" {
+		cs, err := hlib.ReadReplay(a.Replay)
+		if err != nil {
+			return err
+		}
+		for _, m := range cs {
+			var in input
+			var text []int
+			json.Unmarshal(m["text"], &text)
+			json.Unmarshal(m["class"], &in.class)
+			in.text = hlib.Unints(text)
+			if raw, ok := m["decl"]; ok && string(raw) != "null" {
+				d := []sval{}
+				if json.Unmarshal(raw, &d) == nil {
+					in.decl = &d
+				}
+			}
+			if raw, ok := m["rec"]; ok && string(raw) != "null" {
+				var ro recObs
+				if json.Unmarshal(raw, &ro) == nil {
+					ri := ro.recIn
+					in.rec = &ri
+				}
+			}
+			// a replay file holds one of the two kinds; both are re-emitted, the driver pairs by index
+			var kind string
+			json.Unmarshal(m["kind"], &kind)
+			for _, c := range observe(in) {
+				if c.Kind == kind {
+					e.Emit(c)
+				}
+			}
+		}
+		return nil
+	}
+	for _, in := range fixedInputs() {
+		runOne(in, e)
+	}
+	for _, in := range hugeInputs() {
+		runOne(in, e)
+	}
+	// every order of the seven keys (thorough) / of every choice of up to three keys plus
+	// the rotations of all seven (quick), with simple values
+	r := hlib.NewRng(a.Seed, 18)
+	if a.Tier == "thorough" {
+		permutations([]int{0, 1, 2, 3, 4, 5, 6}, func(p []int) {
+			in := genValid(r, p)
+			in.class = "perm7"
+			in.rec = nil
+			runOne(in, e)
+		})
+	} else {
+		for s := 0; s < 7; s++ {
+			p := []int{}
+			for i := 0; i < 7; i++ {
+				p = append(p, (s+i)%7)
+			}
+			in := genValid(r, p)
+			in.class = "perm7"
+			runOne(in, e)
+		}
+	}
+	for x := 0; x < 7; x++ {
+		for y := 0; y < 7; y++ {
+			for z := 0; z < 7; z++ {
+				if x == y || y == z || x == z {
+					continue
+				}
+				if a.Tier != "thorough" && (x+2*y+3*z)%3 != 0 {
+					continue
+				}
+				in := genValid(r, []int{x, y, z})
+				in.class = "perm3"
+				in.rec = nil
+				runOne(in, e)
+			}
+		}
+	}
+	for i := 0; i < a.N; i++ {
+		switch r.Pick([]int{10, 3, 2, 6}) {
+		case 0:
+			runOne(genValid(r, randKeys(r)), e)
+		case 1:
+			runOne(genMandBad(r), e)
+		case 2:
+			runOne(genDupKey(r), e)
+		default:
+			runOne(genMalformed(r), e)
+		}
+	}
+	return nil
+}
+
+func main() { hlib.Main(run) }
